@@ -18,7 +18,8 @@ import (
 //	                                      a type set whose members refer to their predecessor by its SIMPLE name (answered by
 //	                                      the typeSetLoader from typeSet.GetType), to every R, and whose `references` name
 //	                                      other type sets (typeSetReference.resolve loads SET through the context's loader);
-//	                                      M != "": member 0 uses RefI::M (typeSet.GetType through the reference)
+//	                                      M != "": member 0 uses RefI::M (typeSet.GetType through the reference; M may itself
+//	                                      run through a reference of SET: Ref0::Tx)
 //	(bareobject) (barehash)               `Object[{…}]` / `{attributes => …}` without a name: the definition takes the
 //	                                      requested name, and is an Object (the px.OrderedMap arm of InstantiatePuppetType)
 //
@@ -139,7 +140,7 @@ var xrefPool = []file{
 	{segs: []string{"env", "types", "self.pp"}, body: xAlias("Self", "Self", "E")},
 	{segs: []string{"modules", "mymod", "types", "thing.pp"}, body: xAlias("Mymod::Thing", "A", "Mymod::Sub::X")},
 	{segs: []string{"modules", "mymod", "types", "sub", "x.pp"}, body: xObject("Mymod::Sub::X", "Mymod::Thing", "Mymod::Tb")},
-	{segs: []string{"modules", "mymod", "types", "init_typeset.pp"}, body: xSet("Mymod", []string{"Ta", "Tb"}, []string{"B"}, tsref{set: "Set"}, tsref{set: "Other", member: "Ty"})},
+	{segs: []string{"modules", "mymod", "types", "init_typeset.pp"}, body: xSet("Mymod", []string{"Ta", "Tb"}, []string{"B"}, tsref{set: "Set", member: "Ref0::Tx"}, tsref{set: "Other", member: "Ty"})},
 }
 
 var xrefNames = []string{"A", "B", "C", "D", "E", "Set", "Set::Ta", "Set::Tb", "SET::TC", "Set::Ref0", "Set::Ref0::Tx", "Other", "Other::Tx",
